@@ -16,7 +16,14 @@ for mf in sorted(glob.glob(os.path.join(ROOT, "seeded", "*", "meta.json"))):
     rows.append("| %s | %s | %s | %s | %s |" % (name, m.get("breaks", "").replace("|", "/"), needs.replace("|", "/"), first, now.replace("|", "/")))
 table = "| seeded change (directory under seeded/) | what it does | needs to manifest | first run | now |\n|---|---|---|---|---|\n" + "\n".join(rows)
 n = len(rows); missed = sum(1 for r in rows if "**missed**" in r)
-table += "\n\n%d seeded changes in two rounds (round 2 was told what round 1 had used); %d detected by the quick tier at first run, %d missed at first and detected after the enumerated space was widened.\n" % (n, n - missed, missed)
+import collections
+per = collections.OrderedDict()
+for mf in sorted(glob.glob(os.path.join(ROOT, "seeded", "*", "meta.json"))):
+    m = json.load(open(mf)); r = m.get("round", 1)
+    a = per.setdefault(r, [0, 0]); a[0] += 1
+    if m.get("check_result_first_run", "").startswith("missed"): a[1] += 1
+table += "\n\n%d seeded changes in %d rounds (each later round was told what the earlier ones had used and asked for a different kind of hiding place); first-run result of the quick tier per round: %s. %d were missed at first run in total; every one of them is detected now, after the enumerated space was widened (column `now`).\n" % (
+    n, len(per), "; ".join("round %s: %d of %d detected" % (r, a[0] - a[1], a[0]) for r, a in sorted(per.items())), missed)
 p = os.path.join(ROOT, "DESIGN.md"); s = open(p).read()
 a, b = "<!-- SEED-TABLE-BEGIN -->", "<!-- SEED-TABLE-END -->"
 if a in s:
